@@ -300,6 +300,10 @@ func (s *vSched) hook(pt int32, obj unsafe.Pointer, a, b int64) {
 	}
 	act.steps++
 	s.park(act, vGate{pt, obj, a, b})
+	if pt == vpSrvClose && s.emit != nil {
+		// released from the point in front of Close's sweep over the tracked connections
+		s.emit("Sweep", "", 0, 0, "")
+	}
 	if pt == vpSrvStore && b == 1 && s.emit != nil {
 		// released from the point right before connections.Store: nobody else runs until the Store is done
 		s.emit("Track", "", int(a), 0, "")
